@@ -70,7 +70,8 @@ CHECKS = {
              "sets) and the generator-shaped unfolding into linear clauses; TLC enumerates every path with <=2 levels of / and | "
              "over p, q, p^, q^, @type (6355 paths) on 4 canonical graphs (diamond, cycle, literal in mid-path, parallel/converse), "
              "proves Den = union of clauses and emits Den per focus node; random deeper paths x random graphs are judged by the "
-             "same TLA+ operator; each case is rendered with random spacing/parentheses and observed on the real validator "
+             "same TLA+ operator - in a third of them one predicate is a custom domain property (apiExt.r in the path, its edges "
+             "rendered the way AMF encodes extensions); each case is rendered with random spacing/parentheses and observed on the real validator "
              "through `in` traces (values), the maxCount trace (distinct count) and nested sub-results (nodes).",
         ref="DESIGN.md §6 C02", technique="TLA+ denotational spec + exhaustive path enumeration (TLC) replayed into the validator"),
     "C07": dict(
